@@ -2,14 +2,14 @@ CONSTANTS
   Reward = 60000
   Maturity = 3
   Slates = {"s1", "s2"}
-  Amounts = {1000}
+  Amounts = {59975}
   NFund = 1
-  MaxH = 6
+  MaxH = 5
   MaxLog = 2
   UseLate = FALSE
   UseTtl = FALSE
   UseInvoice = FALSE
-  UseAccounts = TRUE
+  UseAccounts = FALSE
   UseMineTo = FALSE
   UseCancelBySlate = FALSE
   MaxAdv = 1
@@ -17,7 +17,7 @@ CONSTANTS
   UseScan = FALSE
   UseAccounts2 = FALSE
   UseSelf = FALSE
-  FundAcct2 = TRUE
+  FundAcct2 = FALSE
   UseDiverge = FALSE
   UseAdv = FALSE
 SPECIFICATION Spec
@@ -27,10 +27,6 @@ INVARIANT Inv_Held
 PROPERTY Prop_Replay
 PROPERTY Prop_SelectAvoidsReserved
 PROPERTY Prop_FinalizeOwn
-PROPERTY Prop_Cancel
-PROPERTY Prop_Books
-PROPERTY Prop_Isolation
-PROPERTY Prop_Paths
 PROPERTY EmitEdges
 CONSTRAINT Bound
 VIEW View
